@@ -26,6 +26,7 @@ EXPLANATION = (
     "T: line count and final newline preserved; blank lines come out empty and never influence the margin; the margin is a "
     "common whitespace prefix of the non-blank lines and maximal because narrowing cuts only at the first mismatch; "
     "idempotence and dedent(indent(s,p)) = dedent(s) follow. U: maximality is argued on paper from R2."
+    " U (found by randomised testing of the unmodified tree, not decided by these rules): idempotence fails for a line that ends in CR CR LF, because str::lines strips the CR LF pair while the output pass writes LF only; the statement restricts only the indent clause to texts without carriage returns."
 )
 ASSUMPTIONS = ["A-rustc", "A-std: str::lines, char_indices, zip, starts_with, split_at"]
 LEVEL_TEXT = (
